@@ -39,6 +39,7 @@ var cfg = params.TestChainConfig
 // violate reports at most 5 concrete inputs per defect class (the text before the first '/'), so that one
 // noisy class cannot crowd the others out of the result's violation list
 var violPerClass = map[string]int{}
+var shapeCounter int
 
 func violate(c *vh.Ctx, signature, what string, replay interface{}) {
 	cls := strings.SplitN(signature, "/", 2)[0]
@@ -1202,8 +1203,29 @@ func checkReceiptSet(c *vh.Ctx, m *vh.Model, r *vh.RNG, p valuePool, rs types.Re
 		l.Index = uint(i)
 	}
 	w := &world{allLogs: flat, addrPool: p.addrs, topPool: p.tops}
-	for q := 0; q < 2; q++ {
+	for q := 0; q < 3; q++ {
 		cr := w.genCriteria(r)
+		if q == 2 { // one deterministic shape per set, built from a log of the set
+			if len(flat) == 0 {
+				break
+			}
+			shapeCounter++
+			l := flat[shapeCounter%len(flat)]
+			cr = criteria{}
+			switch n := len(l.Topics); {
+			case shapeCounter%4 == 0 && n >= 1:
+				cr.tops = [][]common.Hash{{l.Topics[0]}, {}} // explicit empty list in a later position
+			case shapeCounter%4 == 1 && n >= 1:
+				cr.tops = make([][]common.Hash, n) // wildcards up to the last topic, which is named (position up to 3)
+				cr.tops[n-1] = []common.Hash{l.Topics[n-1]}
+			case shapeCounter%4 == 2 && n >= 1:
+				cr.addrs = []common.Address{l.Address, l.Address}
+				cr.tops = [][]common.Hash{{l.Topics[0], l.Topics[0]}}
+			default:
+				cr.tops = make([][]common.Hash, n+1) // one wildcard more than the log has topics
+				cr.addrs = []common.Address{l.Address}
+			}
+		}
 		ft := receiptTok(flat, 0)
 		var got []uint64
 		for _, l := range filters.VerifFilterLogs(flat, cr.addrs, cr.tops) {
@@ -1398,7 +1420,7 @@ func main() {
 	c := vh.Init("C16")
 	m := c.StartModel()
 	defer m.Close()
-	c.Res.Rule = "chains from core.GenerateChain (faker engine) whose transactions call LOG0-LOG4 emitter contracts (8 contracts with random scripts over a pool of 8 topics, one reverting, one calling two others); criteria derived from existing logs (hits) or drawn from the pools plus foreign values, wildcards and over-long topic lists; ranges with -1 ends, ends beyond head, begin>end and ends within +-3 of sections*size; section sizes 8/64 (harness-built index through bloombits.Generator, any progress 0..full) and 2048 (production ChainIndexer+BloomIndexer; 4096 in the thorough tier); plus random log sets for CreateBloom/LogsBloom/BloomLookup/filterLogs/bloomFilter and operation sequences on bloombits.Generator. A case is distinct and non-trivial when its input is new and it has at least one hit (query/matcher: non-empty expected result; bloom: non-empty log set; generator: fully generated)"
+	c.Res.Rule = "ONE shared value pool per world: emitter addresses (incl. 0x0100 and the zero address) and topics in deliberate relations (topic = left-padded / right-padded emitter address, same 20 bytes with dirty padding or at another offset, zero word, near pair, addresses cut out of random topics). Bloom level: every relation x every placement (same log, topic before/after the emitter's log in one receipt, other receipt of the block, repeated topic/address) plus random log sets over the pool: CreateBloom/LogsBloom(every receipt)/BloomLookup/filterLogs/bloomFilter vs model, no-false-negative oracle over every address and topic of every log on both the receipt and the block bloom. Chain level: core.GenerateChain (faker) calling LOG0-LOG4 emitter contracts with designed scripts (own padded address as topic, caller naming a callee before/after the callee emits, 4-topic logs, reverting contract), every emitter called alone in blocks 1..22, logs forced on both sides of every 64-block boundary, around 2040..2056 and at the head; deterministic sweeps: every pool address / topic (positions 0..3) / special shape (trailing and inner empty alternative lists incl. explicit empty, 4-5 positions, duplicate addresses/alternatives/rules, address with its own related topics) through the indexed, half-indexed and unindexed path; range shapes (ends not aligned to 8 or to the section size, begin inside one section and end in a later one, everything within +-3 of sections*size and of head, -1 ends, begin>end) x index progress; then random criteria/ranges; section sizes 8/64 (harness-built index via bloombits.Generator, any progress) and 2048 (production ChainIndexer+BloomIndexer; 4096 in the thorough tier); operation sequences on bloombits.Generator. A case is distinct and non-trivial when its input is new and it has at least one hit (query/matcher: non-empty expected result; bloom: non-empty log set; generator: fully generated)"
 
 	log.Root().SetHandler(log.LvlFilterHandler(log.LvlCrit, log.StreamHandler(os.Stderr, log.TerminalFormat(false))))
 	t0 := time.Now()
@@ -1476,7 +1498,7 @@ func main() {
 				short.runMatcher(newBk(full), uint64(rg[0]), uint64(rg[1]), cr)
 			}
 		}
-		nq := c.Scale(150, 600)
+		nq := c.Scale(110, 600)
 		for q := 0; q < nq; q++ {
 			sections := uint64(r.Intn(int(full) + 1))
 			if q%5 == 0 {
